@@ -84,7 +84,7 @@ STAGES = [dict(name='data', mode='unit', coq='Check.C10c', profile=('Proofs.Judg
                     '(thorough, 1092) / <= 4 (quick, 120) with deltas cycling through {0,1/64,1/8,1/4}, plus sticky random histories of '
                     'length 5..30 with deltas m*2^-e s (odd m < 8, e <= 9); all four output types; non-trivial = some frame not None; distinct = distinct case text')]
 
-STAGES.append(dict(name='virtual', mode='app', coq='Check.C10a', cases=app_cases, nontrivial=nontrivial, shard=25,
+STAGES.append(dict(name='virtual', mode='app', coq='Check.C10a', profile=('Proofs.JudgeC10P', 'JudgeC10P.profile_C10b', 'C10_app_judgement_sound / C10_app_judgement_transfer'), cases=app_cases, nontrivial=nontrivial, shard=25,
                    exhaustive={'thorough': False, 'quick': False},
                    rule='real App with TimeUpdateStrategy::ManualDuration: 1-3 actions driven by sticky scripted states (some with a scripted events-only or plain blocker) over 6-30 frames, real deltas m*2^-e s and some beyond '
                         'the 250 ms clamp, relative speed changing among {0,1/4,1/2,1,2,4}, pauses, a rebuild in the middle; shared contexts with three holders some of which leave in mid-run; polled durations and event payloads are recomputed '
